@@ -328,6 +328,8 @@ def alpha_normalise(tu):
             # not alpha-equivalent: renamed locals plus a light touch (a counter's type, a re-ordered statement). With the same
             # number of declarations in the same order and a nearly identical name-free token sequence the declarations
             # still correspond one to one
+            if sorted(names) == sorted(r['names']):
+                continue        # the same names in another order: declarations were moved, nothing was renamed
             rt = r.get('tokens')
             if not rt:
                 continue
